@@ -190,5 +190,6 @@ func c12Units(t Tier, seed uint64) []engine.Unit {
 		}
 		us = append(us, engine.Unit{Name: name, Run: func(res *ev.Result) { c12Scenario(res, name, seed, pinned) }})
 	}
+	collInterleaveUnits(&us, "C12", seed, 5*t.F)
 	return us
 }
